@@ -328,9 +328,8 @@ Definition maybe_range (info : index_info) (a b : sexpr) : option iexp :=
                           | OGt, OLtEq => Some (BExcl lv, BIncl rv)
                           | OGt, OLt => Some (BExcl lv, BExcl rv)
                           | OLtEq, OGtEq => Some (BIncl rv, BIncl lv)
-                          (* as written in maybe_range (the inclusivity of these two arms is swapped) *)
-                          | OLtEq, OGt => Some (BIncl rv, BExcl lv)
-                          | OLt, OGtEq => Some (BExcl rv, BIncl lv)
+                          | OLtEq, OGt => Some (BExcl rv, BIncl lv)
+                          | OLt, OGtEq => Some (BIncl rv, BExcl lv)
                           | OLt, OGt => Some (BExcl rv, BExcl lv)
                           | _, _ => None
                           end in
@@ -731,32 +730,6 @@ Fixpoint pcols (e : sexpr) : list N :=
 Definition null_free (info : index_info) (tbl : list rowT) (p : sexpr) : bool :=
   forallb (fun r => forallb (fun c => match info c, val r c with Some _, None => false | _, _ => true end) (pcols p)) tbl.
 
-(* ================================================================ finding: maybe_range swaps the inclusivity *)
-Definition swapped_pair (opl opr : cmpop) : bool :=
-  match opl, opr with OLtEq, OGt | OLt, OGtEq => true | _, _ => false end.
-
-(* row r sits on one of the two bounds of a fused `x <= a AND x > b` / `x < a AND x >= b` with b < a *)
-Fixpoint range_swap_hit (info : index_info) (r : rowT) (e : sexpr) : bool :=
-  match e with
-  | XAnd a b =>
-      match maybe_range info a b with
-      | Some _ =>
-          match a, b with
-          | XCmp opl (TCol c) (TLit (LVal lv)), XCmp opr _ (TLit (LVal rv)) =>
-              swapped_pair opl opr && (rv <? lv)%Z &&
-              match val r c with Some x => (x =? lv)%Z || (x =? rv)%Z | None => false end
-          | _, _ => false
-          end
-      | None => range_swap_hit info r a || range_swap_hit info r b
-      end
-  | XNot x => range_swap_hit info r x
-  | XOr a b => range_swap_hit info r a || range_swap_hit info r b
-  | _ => false
-  end.
-
-Definition Known_C19_range_bounds_swapped (info : index_info) (tbl : list rowT) (p : sexpr) : bool :=
-  existsb (fun r => range_swap_hit info r p) tbl.
-
 (* ================================================================ finding: BitmapIndex panics on an empty range *)
 (* the index expression the translator builds has a Range leaf whose bounds are inverted (x >= 7 AND x <= 1,
    x BETWEEN 7 AND 1, x > 5 AND x < 5) and the leaf is answered by a bitmap index *)
@@ -917,9 +890,8 @@ Definition chk_scan (i : list (N * (bool * list (N * parser))) * list (N * (N * 
 
 (* the class predicate as evaluated by the harness *)
 Definition chk_class (i : list (N * (bool * list (N * parser))) * list (N * (N * list N * bool)) * list (N * N * list (option Z)) * sexpr)
-                     (o : bool * bool * bool) : bool :=
+                     (o : bool * bool) : bool :=
   let '(info_l, ix_l, rows, p) := i in
   let tbl := map (fun r => mk_row (fst (fst r)) (snd (fst r)) (snd r)) rows in
-  Bool.eqb (Known_C19_not_over_nullable (info_of info_l) tbl p) (fst (fst o)) &&
-  Bool.eqb (Known_C19_range_bounds_swapped (info_of info_l) tbl p) (snd (fst o)) &&
+  Bool.eqb (Known_C19_not_over_nullable (info_of info_l) tbl p) (fst o) &&
   Bool.eqb (Known_C19_bitmap_inverted_range (info_of info_l) (ixs_of tbl ix_l) p) (snd o).
